@@ -55,7 +55,7 @@ ANCHORS = [
     ("pipefunc/map/_storage_array/_file.py", ["FileArray.dump", "FileArray.dump_in_subprocess"]),
 ]
 RULE = ("random valid map requests (DAGs of 1..4 structural functions, generators, reductions, tuple outputs, internal "
-        "axes after the mapped ones) x { controlled executor: every permutation of the submitted tasks of each "
+        "axes at any position) x { controlled executor: every permutation of the submitted tasks of each "
         "generation with <= 4 tasks (others: random permutations), sync and async entry point; real thread pools with "
         "per-call delays; thorough: process pools and the default executor } x { dict, file_array, shared_memory_dict, "
         "per-function mixes; executor single / per output / default+overrides }; non-trivial = a generation with >= 2 "
@@ -69,8 +69,7 @@ ASSUMPTIONS = [
     "tasks that start while later tasks of the same generation are still being submitted are not modelled separately "
     "(the controlled executor starts a batch at the first Future.result()/add_done_callback of the generation)",
     "fresh run folder (no existing results: args.existing = []); resume is C05",
-    "user functions are deterministic and return arrays of the declared internal shape; requests with an internal axis "
-    "before a mapped axis are filtered out until the known normalize_key(for_dump=True) defect is repaired",
+    "user functions are deterministic and return arrays of the declared internal shape",
     "generation structure and order inside a generation are taken from the real pipeline (networkx) and validated as a "
     "layering inside Coq",
 ]
@@ -427,26 +426,10 @@ def run_impl(c):
 
 
 # ------------------------------------------------------------------ generation of cases
-def _internal_last(req):
-    """Known defect (normalize_key(for_dump=True), repaired elsewhere): internal axes only after all mapped axes."""
-    for f in req["funcs"]:
-        sp = f.get("spec")
-        if not sp or not sp["i"]:
-            continue
-        named = {a for _, ax in sp["i"] for a in ax if a is not None}
-        seen_internal = False
-        for a in sp["o"][0][1]:
-            if a not in named:
-                seen_internal = True
-            elif seen_internal:
-                return False
-    return True
-
-
 def _request(rng):
     while True:
         req = mapgen.gen_request(rng)
-        if mapgen.request_size(req) <= 30 and _internal_last(req):
+        if mapgen.request_size(req) <= 30:
             req.pop("storage", None)
             return req
 
